@@ -464,6 +464,43 @@ def io_grammar(io_path, wd, stats):
     stats["impl_drift_kinds"] = sorted(kinds)[:20]
 
 
+def impl_trace(io_path, wd, stats):
+    """Stateful conformance of the recorded I/O with the engine's state machine (spec/WalImplTrace.tla): the metadata the
+    real code commits is the SegOps transaction of the call in progress applied to the last committed metadata, files are
+    created / unlinked / opened / written as that metadata says, the reported log bounds are the contract's. A mismatch is
+    reported in the evidence (impl_drift), never as a violation."""
+    for part in _io_chunks(io_path, wd):
+        cfg = cfg_text(constants={"TraceFile": "io.ndjson"}, post="Accepted")
+        r = tlc("WalImplTrace", cfg, files={"io.ndjson": part}, workers=1, timeout=900, heap="8g")
+        if r.error or r.violated:
+            stats.setdefault("impl_drift_kinds", []).append("WalImplTrace failed: %s %s" % (r.error, r.violated))
+            stats["impl_trace_error"] = (r.errctx or r.out)[-1500:]
+            return
+        pl = tlc_payloads(r, "IMPLTRACE")
+        if len(pl) != 1:
+            return
+        c = stats.setdefault("impl_trace_clause_evaluations", {})
+        for k, v in pl[0]["cnt"].items():
+            c[k] = c.get(k, 0) + v
+        stats["impl_trace_states"] = stats.get("impl_trace_states", 0) + r.generated
+        stats["impl_drift"] = stats.get("impl_drift", 0) + len(pl[0]["v"])
+        if pl[0]["v"]:
+            lines = open(part).read().splitlines()
+            kinds = set(stats.get("impl_drift_kinds", []))
+            sm = stats.setdefault("impl_drift_samples", [])
+            for v in pl[0]["v"]:
+                kinds.add("WalImplTrace:" + v["clause"])
+                if len(sm) < 5:
+                    i = v["line"] - 1
+                    k = i
+                    while k >= 0 and '"ev":"reset"' not in lines[k]:
+                        k -= 1
+                    e = json.loads(lines[i])
+                    sm.append({"clause": v["clause"], "run": json.loads(lines[k]).get("path") if k >= 0 else "?",
+                               "event": {kk: e[kk] for kk in ("seq", "call", "name", "ids", "next", "segs", "ares", "afirst", "alast") if kk in e}})
+            stats["impl_drift_kinds"] = sorted(kinds)[:30]
+
+
 class Engine:
     """One check run: collects stats, violations per property, evidence samples."""
 
@@ -491,6 +528,7 @@ class Engine:
             obs, io, st = run_jobs(jobs, self.wd, "%s%d" % (tag, lvl), need_io=True)
             t1 = time.time()
             io_grammar(io, self.wd, self.stats)
+            impl_trace(io, self.wd, self.stats)
             if lvl == 0:
                 for v in io_order(io, self.wd, self.stats):
                     job = self.jobs_by_id.get(v["path"].split("/")[0])
